@@ -1,15 +1,10 @@
 // Stand-ins for external crates used by the orchestration groups (single-file Verus cannot link
 // crates; DESIGN 2.9, T-ext). Included *outside* the group's `verus! { .. }` block.
 //
-// serde_json (rule E2): a JSON value is opaque. `to_value(x)` is a deterministic function of what
-// it is given (`json_of`), or an error. The JSON payload itself is NOT verified.
+// serde_json (rule E2): a JSON value is opaque. The JSON payload itself is NOT verified.
 mod serde_json {
     use vstd::prelude::*;
     verus! {
-    #[verifier::external_body]
-    pub struct Value { _opaque: u8 }
-    #[verifier::external_body]
-    pub struct Error { _opaque: u8 }
-    pub type Result<T> = core::result::Result<T, Error>;
+//@include prelude/orch_serde_types.rs
     }
 }
